@@ -308,6 +308,65 @@ where
     }
     let ctx = || format!("old={} new({})={} offsets=({},{}) script={}", fmt_seq(a), std::any::type_name::<NT>().rsplit("::").next().unwrap_or(""), fmt_seq(b), po, pn, fmt_ops(&ops_in));
 
+    // the same script in an index space that straddles 2^63 (old side) and ends just below usize::MAX
+    // (new side): Compact / Compact+Replace must give the ops of the low-index run, shifted
+    if focus == Focus::C10 {
+        let bo = (isize::MAX as usize) - po - a.len() / 2;
+        let bn = usize::MAX - pn - b.len() - 3;
+        let hold = StrictLookup { data: &bufa, allowed: bo + or.start..bo + or.end, base: bo };
+        let hnew = StrictLookup { data: &bufb, allowed: bn + nr.start..bn + nr.end, base: bn };
+        let hi_ops: Vec<DiffOp> = ops_in.iter().map(|op| crate::props::captured::shift_op(*op, 0usize.wrapping_sub(bo), 0usize.wrapping_sub(bn))).collect();
+        for with_replace in [false, true] {
+            out.eval();
+            let low = guard(|| {
+                if with_replace {
+                    let mut c = Compact::new(Replace::new(Capture::new()), &old, &new);
+                    for op in &ops_in {
+                        op.apply_to_hook(&mut c).unwrap();
+                    }
+                    c.finish().unwrap();
+                    c.into_inner().into_inner().into_ops()
+                } else {
+                    let mut c = Compact::new(Capture::new(), &old, &new);
+                    for op in &ops_in {
+                        op.apply_to_hook(&mut c).unwrap();
+                    }
+                    c.finish().unwrap();
+                    c.into_inner().into_ops()
+                }
+            });
+            let high = guard(|| {
+                if with_replace {
+                    let mut c = Compact::new(Replace::new(Capture::new()), &hold, &hnew);
+                    for op in &hi_ops {
+                        op.apply_to_hook(&mut c).unwrap();
+                    }
+                    c.finish().unwrap();
+                    c.into_inner().into_inner().into_ops()
+                } else {
+                    let mut c = Compact::new(Capture::new(), &hold, &hnew);
+                    for op in &hi_ops {
+                        op.apply_to_hook(&mut c).unwrap();
+                    }
+                    c.finish().unwrap();
+                    c.into_inner().into_ops()
+                }
+            });
+            let name = if with_replace { "Compact<Replace<Capture>>" } else { "Compact<Capture>" };
+            match (low, high) {
+                (Ok(l), Ok(h)) => {
+                    out.count("high_index_space_runs");
+                    let back: Vec<DiffOp> = h.iter().map(|op| crate::props::captured::shift_op(*op, bo, bn)).collect();
+                    if back != l {
+                        out.violation("adapter.depends_on_index_space", format!("{}: with old indices around 2^63 and new indices ending below usize::MAX the output is {} (shifted back) but {} at low indices | {}", name, fmt_ops(&back), fmt_ops(&l), ctx()));
+                    }
+                }
+                (Ok(_), Err(p)) => out.violation("panic", format!("{} panicked in an index space straddling 2^63 / ending below usize::MAX (old base {}, new base {}): {} | {}", name, bo, bn, p, ctx())),
+                _ => {}
+            }
+        }
+    }
+
     // 3/4: the same adapters around a BORROWED capture hook; 5: one Replace object used for two
     // scripts in a row (everything must have been flushed by the time finish returned)
     // 6: a doubled Replace (the inner one RECEIVES replace calls), 7: Replace in front of a user hook that
